@@ -31,7 +31,8 @@ MANIFEST = dict(
          "result (C08_checked_paths_total, C08_checked_mul_in_range); the factorial loop terminates for every order "
          ">= 1 (C08_factorial_terminates); kernel-computed witnesses show that the unchecked paths do panic "
          "(C08_power_overflow_refuted: 1e30*1e30, 2^126+2^126) and that 65536 `!` truncate the order to 0 "
-         "(C08_factorial_truncation_refuted). The five known crashing inputs are OPEN findings.",
+         "(C08_factorial_truncation_refuted). Seven classes of crashing inputs are OPEN findings (known_findings.json), six "
+         "further ones found by this exploration were fixed in numbat.",
     design_ref="DESIGN.md §6 C08, §7 #4-#7; design/misc.md",
     note="Trusted: Coq kernel; Overflow/Model.v as a description of num-rational 0.4.2 and math.rs; the exploration "
          "harness (harness/src/crash.rs). An exploration finding nothing is not a proof of absence.",
@@ -473,6 +474,17 @@ def shrink(binary, mode, src, outcome):
     site = site_of(outcome)[:2]
     if len(src) > 20000:
         return src
+    if site[0] == "hang":
+        # every attempt costs a watchdog period: only try dropping whole lines
+        lines = src.split("\n")
+        for i in range(len(lines) - 1, -1, -1):
+            if len(lines) <= 1:
+                break
+            cand = lines[:i] + lines[i + 1:]
+            o = run_single(binary, (mode, "\n".join(cand)))
+            if o.startswith("H|"):
+                lines = cand
+        return "\n".join(lines)
 
     def fails(chars):
         o = run_single(binary, (mode, "".join(chars)))
